@@ -155,7 +155,7 @@ def min_cost_flow[Node](
                 for arc in out[u]:
                     v = head[arc]
                     # the margin keeps float rounding (a + c - c != a) from closing a zero-cost cycle of parent arcs
-                    if residual[arc] > 0 and dist[u] + arc_cost[arc] < dist[v] - 1e-12:
+                    if residual[arc] > 0 and dist[v] - (dist[u] + arc_cost[arc]) > 1e-12:
                         dist[v] = dist[u] + arc_cost[arc]
                         parent_arc[v] = arc
                         updated = True
